@@ -26,3 +26,75 @@ Qed.
 (* all rule sets satisfy the side conditions of Model/Rules.v *)
 Lemma all_rules_wf : forallb (fun nr => rules_wf (snd nr)) (full_rules ++ partial_rules) = true.
 Proof. vm_compute. reflexivity. Qed.
+
+Ltac Zify.zify_post_hook ::= Z.div_mod_to_equations.
+
+(* ---------- the reading of `Fixed m dd o` is the pandas one ---------- *)
+Lemma dim_1970_le y m : dim 1970 m <= dim y m.
+Proof.
+  unfold dim.
+  destruct ((m =? 1) || (m =? 3) || (m =? 5) || (m =? 7) || (m =? 8) || (m =? 10) || (m =? 12)); [lia|].
+  destruct ((m =? 4) || (m =? 6) || (m =? 9) || (m =? 11)); [lia|].
+  destruct (m =? 2); [|lia]. replace (is_leap_greg 1970) with false by (vm_compute; reflexivity).
+  destruct (is_leap_greg y); lia.
+Qed.
+Lemma wd_back_spec n k : -1 <= k <= 2 -> wd_back (weekday n) k = weekday (n - k).
+Proof.
+  intros Hk. unfold wd_back, weekday.
+  destruct (Z.ltb_spec ((n + 3) mod 7 - k) 0); [lia|].
+  destruct (Z.ltb_spec 6 ((n + 3) mod 7 - k)); lia.
+Qed.
+Lemma obs_shift_range o w : -1 <= obs_shift o w <= 2.
+Proof.
+  unfold obs_shift. destruct o; try lia.
+  - destruct (w =? 6); lia.
+  - destruct (w =? 5); [lia|]. destruct (w =? 6); lia.
+  - destruct (w =? 5); [lia|]. destruct (w =? 6); lia.
+  - destruct ((w =? 5) || (w =? 6)); [lia|]. destruct (w =? 0); lia.
+Qed.
+Lemma fixed_wf_shift m dd o w : kind_wf (Fixed m dd o) = true -> 0 <= w <= 6 ->
+  1 <= m <= 12 /\ 1 <= dd <= dim 1970 m /\ (1 <= dd + obs_shift o w <= 28 \/ obs_shift o w = 0).
+Proof.
+  cbn [kind_wf]. intros H Hw.
+  apply andb_true_iff in H. destruct H as [H H5]. apply andb_true_iff in H. destruct H as [H H4].
+  apply andb_true_iff in H. destruct H as [H H3]. apply andb_true_iff in H. destruct H as [H1 H2].
+  apply Z.leb_le in H1, H2, H3, H4. split; [lia|]. split; [lia|].
+  destruct o; try (right; reflexivity); left;
+    (rewrite forallb_forall in H5;
+     assert (Hin : In w [0; 1; 2; 3; 4; 5; 6]) by (cbn [In]; lia);
+     specialize (H5 w Hin); apply andb_true_iff in H5; destruct H5 as [A B]; apply Z.leb_le in A, B; lia).
+Qed.
+
+Theorem fixed_hit_spec m dd o n : kind_wf (Fixed m dd o) = true ->
+  (fixed_hit m dd o (dctx_of n) = true <->
+   exists b, month_of b = m /\ day_of b = dd /\ n = b + obs_shift o (weekday b)).
+Proof.
+  intros WF. unfold dctx_of. rewrite (civil_fields n). unfold fixed_hit. cbn [x_m x_d x_wd x_n].
+  pose proof (civil_valid n) as [[Vm Vd] Vn].
+  split.
+  - destruct (Z.eqb_spec (month_of n) m) as [Em|]; [|discriminate].
+    intros H. apply existsb_exists in H. destruct H as [k [Hk H]].
+    destruct (Z.eqb_spec (day_of n) (dd + k)) as [Ed|]; [|discriminate]. apply Z.eqb_eq in H.
+    assert (Kr : -1 <= k <= 2) by (cbn [In] in Hk; lia).
+    rewrite (wd_back_spec n k Kr) in H.
+    destruct (fixed_wf_shift m dd o (weekday (n - k)) WF (weekday_range _)) as [M [D _]].
+    exists (n - k).
+    assert (Eb : n - k = days_from_civil (year_of n) m dd).
+    { rewrite <- Vn at 1. rewrite Em, Ed, dfc_day_linear. lia. }
+    assert (V : valid_ymd (year_of n) m dd).
+    { split; [lia|]. pose proof (dim_1970_le (year_of n) m). lia. }
+    pose proof (civil_roundtrip_conv _ _ _ V) as C. rewrite <- Eb in C. rewrite civil_fields in C.
+    injection C as _ C2 C3. split; auto. split; auto. lia.
+  - intros [b [Hm [Hd Hn]]].
+    pose proof (civil_valid b) as [[Bm Bd] Bn]. rewrite Hm, Hd in *.
+    set (s := obs_shift o (weekday b)) in *.
+    destruct (fixed_wf_shift m dd o (weekday b) WF (weekday_range _)) as [M [D S]]. fold s in S.
+    pose proof (obs_shift_range o (weekday b)) as Sr. fold s in Sr.
+    assert (V : valid_ymd (year_of b) m (dd + s)).
+    { split; [lia|]. pose proof (dim_bounds (year_of b) m M). destruct S as [S|S]; lia. }
+    assert (En : n = days_from_civil (year_of b) m (dd + s)) by (rewrite dfc_day_linear; lia).
+    pose proof (civil_roundtrip_conv _ _ _ V) as C. rewrite <- En in C. rewrite civil_fields in C.
+    injection C as C1 C2 C3. rewrite C2, C3. rewrite Z.eqb_refl.
+    apply existsb_exists. exists s. split; [cbn [In]; lia|].
+    rewrite Z.eqb_refl. rewrite (wd_back_spec n s Sr). replace (n - s) with b by lia. fold s. apply Z.eqb_refl.
+Qed.
